@@ -110,6 +110,34 @@ def gen(repo):
     ub = norm(pr[m.end():match_brace(pr, m.end() - 1)])
     if "time: Some(prune_time)" not in ub or "blobs: Vec::new()" not in ub or not re.search(r"indexer\s*\.\s*add_remove\(\s*pack\s*\)", ub):
         raise ExtractError("unreferenced packs are no longer marked with Some(prune_time) and no blobs: " + ub[:200])
+    # --- when do the delete marks get their time: when the entry is made (prune_time = plan time), or are they
+    #     held back by the indexer and re-stamped with Timestamp::now() right before the index is finalized
+    prn = norm(pr)
+    hold = [x.start() for x in re.finditer(r"indexer\s*\.\s*hold_removals\(\)\s*;", prn)]
+    rel = [x.start() for x in re.finditer(r"indexer\s*\.\s*release_removals\(\s*prune_time\s*,\s*Timestamp::now\(\)\s*\)\?\s*;", prn)]
+    fins = [x.start() for x in re.finditer(r"indexer(\s*\.\s*write\(\)\s*\.\s*unwrap\(\))?\s*\.\s*finalize\(\)\?\s*;", prn)]
+    if not hold and not rel:
+        at_write = False
+    else:
+        new_ix = prn.find("Indexer::new_unindexed(")
+        first_mark = prn.find("prune_plan.existing_packs")
+        if len(hold) != 1 or not (0 <= new_ix < hold[0] < first_mark):
+            raise ExtractError("indexer.hold_removals() is not called once, right after the indexer of prune_repository is created")
+        if len(rel) != len(fins) or any(not (c < f and f - c < 80) for c, f in zip(rel, fins)):
+            raise ExtractError("release_removals(prune_time, Timestamp::now()) is not called right before every indexer.finalize() of prune_repository")
+        ix = read(repo, "crates/core/src/index/indexer.rs")
+        ar = norm(fn_body(ix, "add_remove"))
+        if not re.search(r"if let Some\(held\) = &mut self\.held_removals \{ held\.push\(pack\); return Ok\(\(\)\); \} self\.add_with\(pack, true\)", ar):
+            raise ExtractError("Indexer::add_remove no longer holds removals back: " + ar[:200])
+        rr = norm(fn_body(ix, "release_removals"))
+        if not ("self.held_removals.take()" in rr and re.search(r"if pack\.time == Some\(stamped\) \{ pack\.time = Some\(now\); \}", rr)
+                and "self.add_with(pack, true)?" in rr):
+            raise ExtractError("Indexer::release_removals no longer re-stamps the planned marks: " + rr[:200])
+        hr = norm(fn_body(ix, "hold_removals"))
+        if "self.held_removals = Some(Vec::new());" not in hr:
+            raise ExtractError("Indexer::hold_removals changed: " + hr[:120])
+        at_write = True
+    meta["marks_stamped_at_write"] = at_write
     # --- plan time
     nb = norm(fn_body(src, "new"))
     if "time: Zoned::now()" not in nb:
@@ -120,7 +148,19 @@ def gen(repo):
     pos = {k: fo.find(k) for k in ("stream_all::<IndexFile>", "find_used_blobs(", "list_with_size(FileType::Pack)", "Self::new(")}
     if min(pos.values()) < 0:
         raise ExtractError("from_prune_options: expected calls not found: %r" % pos)
-    after_scan = pos["Self::new("] > max(pos["stream_all::<IndexFile>"], pos["find_used_blobs("], pos["list_with_size(FileType::Pack)"])
+    # the plan time: Zoned::now() inside Self::new(..), unless overwritten by `pruner.time = <v>;` with
+    # `let <v> = Zoned::now();` earlier in from_prune_options
+    tpos = pos["Self::new("]
+    mo = re.search(r"pruner\s*\.\s*time\s*=\s*(\w+)\s*;", fo)
+    if mo:
+        ml = re.search(r"let\s+%s\s*=\s*Zoned::now\(\)\s*;" % mo.group(1), fo)
+        if not ml or mo.start() < pos["Self::new("]:
+            raise ExtractError("`pruner.time = %s;` without `let %s = Zoned::now();`" % (mo.group(1), mo.group(1)))
+        tpos = ml.start()
+    scan = [pos["stream_all::<IndexFile>"], pos["find_used_blobs("], pos["list_with_size(FileType::Pack)"]]
+    after_scan = tpos > max(scan)
+    if not after_scan and not tpos < min(scan):
+        raise ExtractError("the plan time is taken in the middle of the repository scan")
     meta["plan_time_after_scan"] = after_scan
     if not (pos["stream_all::<IndexFile>"] < pos["find_used_blobs("] < pos["list_with_size(FileType::Pack)"]):
         raise ExtractError("from_prune_options no longer loads index, then snapshots, then lists packs: %r" % pos)
@@ -145,8 +185,10 @@ def gen(repo):
            "Inductive tsrc := Stamp | KeepOld.      (* into_index_pack_with_time(prune_time) | into_index_pack(prune_time) *)",
            "Inductive isec := Unmarked | Marked.    (* indexer.add | indexer.add_remove *)",
            "(* prune_time = %s ; PrunePlan::new: time: Zoned::now() *)" % pt,
-           "Definition stamp_is_plan_time : bool := true.",
-           "(* Self::new(..) is called after stream_all::<IndexFile>, find_used_blobs and list_with_size(Pack) *)",
+           "(* delete marks: stamped with prune_time when the entry is made (false) / held back by the indexer and",
+           "   re-stamped with Timestamp::now() right before the index file is finalized (true) *)",
+           "Definition marks_stamped_at_write : bool := %s." % ("true" if at_write else "false"),
+           "(* is the plan time (Zoned::now()) taken after stream_all::<IndexFile>, find_used_blobs and list_with_size(Pack), or before them *)",
            "Definition plan_time_after_scan : bool := %s." % ("true" if after_scan else "false"),
            "(* decide_packs (true, 0, _): Delete iff plan_time - keep_delete %s mark_time *)" % m.group(2),
            "Definition expiry_nonstrict : bool := %s." % ("true" if nonstrict else "false")]
